@@ -24,8 +24,11 @@ theorem unframe_frame (b rest : Bytes) : unframe (frame b ++ rest) = some (b, re
   simp
 
 theorem toyPrims_law : PrimsLaw toyPrims where
+  shadow_fails := by
+    intro sk ctx m c hg
+    simp [toyPrims] at hg
   pk_roundtrip := by
-    intro sk ctx m c h
+    intro sk ctx m c _ h
     simp only [toyPrims, Option.some.injEq] at h
     subst h
     simp [toyPrims, toyPkDec, List.append_assoc, unframe_frame]
@@ -52,6 +55,24 @@ theorem toyPrims_secure : PrimsSecure toyPrims where
     · simp only [Option.some.injEq] at h
       exact h.symm
     · cases h
+
+/-- the toy primitives with shadow keys satisfy the laws: keys of at most two bytes are genuine,
+longer ones report the public key of their first two bytes and decrypt nothing -/
+theorem shadowPrims_law : PrimsLaw shadowPrims where
+  pk_roundtrip := by
+    intro sk ctx m c hg h
+    have hl : sk.length ≤ 2 := by simpa [shadowPrims] using hg
+    have ht : sk.take 2 = sk := List.take_of_length_le hl
+    simp only [shadowPrims, toyPrims, Option.some.injEq] at h
+    subst h
+    simp [shadowPrims, hl, ht, toyPkDec, List.append_assoc, unframe_frame]
+  shadow_fails := by
+    intro sk ctx m c hg _
+    have hl : ¬ sk.length ≤ 2 := by simpa [shadowPrims] using hg
+    simp [shadowPrims, hl]
+  aead_roundtrip := by
+    intro k n p
+    simp [shadowPrims, toyPrims, toyOpen, List.append_assoc, unframe_frame]
 
 instance : Fact (Nat.Prime 251) := ⟨by norm_num⟩
 
